@@ -23,7 +23,8 @@ RULE = ("matrices: exhaustive 0/1 matrices (quick <= 3x4 and 4x3, thorough <= 3x
         "verdict; every returned order checked), 'wrap' matrices (7-10 rows, 6-12 columns: chain of overlapping intervals "
         "plus nested intervals sharing an endpoint, 0-1 flips: depth >= 2 single-child wrappers), tall near-miss matrices (7-10 rows, 5-9 columns, 1-3 flips), the same "
         "matrices wrapped as instances for CI / DE (rows = ballots) and VI (rows = alternatives); large planted up to "
-        "40x40 (positive: planted order "
+        "40x40; matrices with 65-140 rows and 4-7 columns (filler rows, then a Tucker core or random rows, both orders; reference "
+        "run) (positive: planted order "
         "certified by c1p_check; negative: an embedded Tucker submatrix certified by c1p_core + c1p_core_refuted_sound); instances: every "
         "recogniser on all ordered profiles of <= 3 ballots over <= 3 alternatives, 4 alternatives with <= 3 ballots "
         "(quick: ballot multisets in one random arrangement; thorough: all ordered profiles), random m, n <= 6 (thorough "
@@ -524,6 +525,42 @@ def generate(tier, seed):
             rows, _ = _deep_matrix(rng, nr, nc, flips=rng.choice([1, 2, 3, 3]))
         tags = {"big": 1} if (i % 4 or nc > 7) else {}        # a quarter of the <= 7-column ones also get the reference
         out.append(_mcase(rows, nc, gen="tall-near-miss", **tags))
+    # ---- more than 64 rows with few columns (a column packed into one machine word loses the rows >= 64): filler rows
+    #      (all-zero, all-one, repeated interval rows) then a Tucker core or random rows, and the other way round
+    ntall64 = 400 if quick else 4000
+    for i in range(ntall64):
+        nc = rng.randint(4, 7)
+        hidden = list(range(nc))
+        rng.shuffle(hidden)
+        nfill = rng.randint(64, 130)
+        kind = rng.choice(["zero", "one", "interval", "mixed"])
+        fill = []
+        base = [0] * nc
+        a_ = rng.randrange(nc)
+        for p_ in range(a_, rng.randrange(a_, nc) + 1):
+            base[hidden[p_]] = 1
+        for _ in range(nfill):
+            if kind == "zero":
+                fill.append([0] * nc)
+            elif kind == "one":
+                fill.append([1] * nc)
+            elif kind == "interval":
+                fill.append(list(base))
+            else:
+                fill.append(rng.choice([[0] * nc, [1] * nc, list(base)]))
+        if i % 3 == 2:
+            tail_ = [[int(rng.random() < 0.45) for _ in range(nc)] for _ in range(rng.randint(3, 6))]
+        else:
+            core = rng.choice([c_ for c_ in _cores() if len(c_[0]) <= nc])
+            cols = rng.sample(range(nc), len(core[0]))
+            tail_ = []
+            for r_ in core:
+                row = [0] * nc
+                for j_, x_ in zip(cols, r_):
+                    row[j_] = x_
+                tail_.append(row)
+        rows = fill + tail_ if i % 4 else tail_ + fill
+        out.append(_mcase(rows, nc, gen="tall>64"))
     ncore = 150 if quick else 1500
     for i in range(ncore):
         nr, nc = rng.randint(6, 40), rng.randint(6, 40)
